@@ -35,3 +35,20 @@ Example glyf_points_example :
   compileDeltasGreedy [(1, (0, 0)); (1, (5, -7)); (1, (5, -7)); (1, (5, -7)); (0, (300, 0)); (0, (-300, 255))]
   = Ok [49; 31; 2; 32; 36; 5; 5; 5; 1; 44; 254; 212; 7; 7; 7; 255].
 Proof. vm_compute. reflexivity. Qed.
+
+(* ---- cmap formats 12 (step 1) and 13 (step 0) (ModelCmap.v): sort, run detection, group records, header; decoding with its length
+   checks, group expansion and the character map built from it (glyph 0 = not mapped) *)
+From FV Require C02.ModelCmap C02.ProofsCmap.
+Theorem cmap12_roundtrip : forall format step reserved language m bytes, step = 0 \/ step = 1 -> NoDup (map fst m) ->
+  ModelCmap.cmap12_compile format step reserved language m = Ok bytes ->
+  ModelCmap.cmap12_decompile step bytes = Ok (format, reserved, language, filter ProofsCmap.mapped (ModelCmap.sort_codes m)) /\
+  Permutation.Permutation (ModelCmap.sort_codes m) m /\
+  Sorted.StronglySorted (fun a b => fst a < fst b) (ModelCmap.sort_codes m).
+Proof. exact ProofsCmap.cmap12_roundtrip. Qed.
+Print Assumptions cmap12_roundtrip.
+
+(* run-length grouping loses nothing, whatever the order of the pairs *)
+Theorem cmap12_groups_expand : forall step l, step = 0 \/ step = 1 ->
+  flat_map (ModelCmap.expand_group step) (ModelCmap.compile_groups step l) = l.
+Proof. exact ProofsCmap.groups_expand. Qed.
+Print Assumptions cmap12_groups_expand.
